@@ -83,8 +83,15 @@ def check_text(text, M, case, idx=0, full=True):
                                  "collect": a.status, "stop": b.status}, case, mechanism=observe.f1_mechanism(a))
     if full:
         opts = OPTS[idx % 8]
-        st, envs, opened, src = observe.enum_observed(text, options=opts)
+        enum_stop = (idx % 3 == 0)
+        st, envs, opened, src = observe.enum_observed(text, options=opts, stop=enum_stop)
         M.count("enum_calls")
+        M.count("enum_calls.stop_mode" if enum_stop else "enum_calls.collecting_mode")
+        if st == "ok" and enum_stop and results[True].status == "single":
+            # the stream must turn the single raised error into exactly one parseError envelope
+            if [list(e) for e in envs] != [["parseError"]] or envs[0]["parseError"].get("message") != results[True].errors[0]["message"]:
+                M.violation("G1.enum", {"what": "stop-at-first-error stream: the raised error was not turned into exactly one parseError envelope",
+                                        "envelopes": short(envs, 200)}, case)
         mech = observe.F1 if text in opened else None
         if st != "ok":
             if envs.get("origin", "").startswith("token_scanner.py:__init__"):
